@@ -58,6 +58,11 @@ var lexChars = []struct{ name, s string }{
 func lexSymbols() []lexSym {
 	var out []lexSym
 	add := func(class, name, text string, core, pair bool) {
+		// a comment that holds or ends in a bare CR is in the class of the CR,
+		// whatever else it holds (one violation key per cause, not per companion)
+		if strings.HasPrefix(class, "comment") && strings.Contains(strings.ReplaceAll(text, "\r\n", ""), "\r") {
+			class = "comment-cr"
+		}
 		out = append(out, lexSym{class: class, name: name, text: text, core: core, pair: pair})
 	}
 	// white space / line endings
@@ -320,8 +325,10 @@ func (p *lexProg) build(seps []string, b1 int, s1 string, b2 int, s2 string) str
 
 var lexEOLs = []struct{ name, s string }{{"lf", "\n"}, {"crlf", "\r\n"}, {"cr", "\r"}}
 
-// lexLayerTasks returns one task per program.
-func lexLayerTasks(e *engine, g *grammar, thorough bool) (tasks []func(w *worker), nProgs, nSyms, nCore, nPair int) {
+// lexLayerTasks returns one task per program for the single-boundary product
+// (phase 1) and one per program for the two-boundary product (phase 2, so that
+// a failing pair is attributed to the single-boundary class that explains it).
+func lexLayerTasks(e *engine, g *grammar, thorough bool) (tasks, pairTasks []func(w *worker), nProgs, nSyms, nCore, nPair int) {
 	syms := lexSymbols()
 	var pairSyms []lexSym
 	for _, s := range syms {
@@ -337,15 +344,20 @@ func lexLayerTasks(e *engine, g *grammar, thorough bool) (tasks []func(w *worker
 		p := p
 		tasks = append(tasks, func(w *worker) {
 			n := len(p.toks)
-			full := p.all || thorough
 			for ei, eol := range lexEOLs {
-				// the file's own line-ending convention: quick tier only for the base program
-				if ei > 0 && !(thorough || p.name == "base") {
+				// the file's own line-ending convention (every remaining LF written as CRLF / CR):
+				// quick tier only for the `all` programs
+				if ei > 0 && !(thorough || p.all) {
 					break
 				}
+				// full alphabet: `all` programs always; every program in the thorough tier (LF files)
+				fullSyms := p.all || (thorough && ei == 0)
+				// every boundary: `all` programs always, every program in the thorough tier; otherwise
+				// the file header, the end of the file and the boundaries not shared with the base program
+				allBoundaries := p.all || thorough
 				seps := p.withEOL(eol.s)
 				for b := 0; b <= n; b++ {
-					if !full && b != 0 && b != n && (b < p.from || b > p.to) {
+					if !allBoundaries && b != 0 && b != n && (b < p.from || b > p.to) {
 						continue
 					}
 					bc := p.boundaryClass(b)
@@ -353,33 +365,36 @@ func lexLayerTasks(e *engine, g *grammar, thorough bool) (tasks []func(w *worker
 						bc += "/file-" + eol.name
 					}
 					for _, s := range syms {
-						if !full && !s.core {
+						if !fullSyms && !s.core {
 							continue
 						}
-						w.eval("lexlayer", []string{"lexlayer." + s.class}, bc, []string{"(lexlayer," + s.name + "," + bc + ")"}, p.build(seps, b, s.text, -1, ""))
+						w.eval("lexlayer", []string{"lexlayer." + s.class + "@" + bc}, "", []string{"(lexlayer," + s.name + "," + bc + ")"}, p.build(seps, b, s.text, -1, ""))
 					}
 				}
 			}
-			// two boundaries at once, reduced alphabet: quick = the base program with the
-			// file header as one of the two; thorough = every pair of every `all` program.
-			if !p.all || (!thorough && p.name != "base") {
-				return
-			}
+		})
+		// two boundaries at once, reduced alphabet, `all` programs: quick = the file
+		// header and one other boundary; thorough = every pair of boundaries.
+		if !p.all {
+			continue
+		}
+		pairTasks = append(pairTasks, func(w *worker) {
+			n := len(p.toks)
 			for b1 := 0; b1 <= n; b1++ {
 				if !thorough && b1 != 0 {
 					break
 				}
 				for b2 := b1 + 1; b2 <= n; b2++ {
-					bc := p.boundaryClass(b1) + "+" + p.boundaryClass(b2)
+					bc1, bc2 := p.boundaryClass(b1), p.boundaryClass(b2)
 					for _, s1 := range pairSyms {
 						for _, s2 := range pairSyms {
-							w.eval("lexlayer2", []string{"lexlayer." + s1.class, "lexlayer." + s2.class}, bc,
-								[]string{"(lexlayer2," + s1.class + "," + s2.class + "," + bc + ")"}, p.build(p.seps, b1, s1.text, b2, s2.text))
+							w.eval("lexlayer2", []string{"lexlayer." + s1.class + "@" + bc1, "lexlayer." + s2.class + "@" + bc2}, "",
+								[]string{"(lexlayer2," + s1.class + "@" + bc1 + "," + s2.class + "@" + bc2 + ")"}, p.build(p.seps, b1, s1.text, b2, s2.text))
 						}
 					}
 				}
 			}
 		})
 	}
-	return tasks, len(progs), len(syms), nCore, len(pairSyms)
+	return tasks, pairTasks, len(progs), len(syms), nCore, len(pairSyms)
 }
